@@ -18,6 +18,9 @@ BODIES = {
     "thread": "import threading, time\nthreading.Thread(target=lambda: time.sleep(1000), daemon=True).start()\nchannel.receive()",
     "sending": "while True: channel.send(b'x' * 1000000)",
     "cbdropped": "c = channel.gateway.newchannel()\nc.setcallback(lambda x: None)\nchannel.send(c)\ndel c\nchannel.receive()",
+    # a worker-side callback that cannot cope with its endmarker (None): it raises when the connection ends
+    "cbraises": "c = channel.gateway.newchannel()\nc.setcallback(lambda x: x.upper(), endmarker=None)\nchannel.send(c)\nchannel.receive()",
+    "cbraises_dropped": "c = channel.gateway.newchannel()\nc.setcallback(lambda x: x.upper(), endmarker=None)\nchannel.send(c)\ndel c\nchannel.receive()",
     "nondaemon": "import threading, time\nthreading.Thread(target=lambda: time.sleep(1000)).start()",
     "atexit_hang": "import atexit, time\natexit.register(time.sleep, 1000)",
     # the body does not read; the initiator floods its channel with unconsumed items before it goes away
